@@ -36,7 +36,7 @@ fn run_partition(pkts: &[Vec<u8>], cuts: u64) -> (Vec<String>, String) {
                     netflow_parser::NetflowPacket::IPFix(v) => v.to_be_bytes().map(|b| hex(&b)).unwrap_or_else(|e| format!("error {}", e)),
                     netflow_parser::NetflowPacket::Error(_) => String::new(),
                 };
-                out.push(format!("{:?} export={}", el, exported));
+                out.push(format!("{} export={}", obs::render(&el), exported));
             }
             buf.clear();
         }
